@@ -8,8 +8,8 @@ from structgen import Ty, round_up
 ID = "C10"
 REQUIRES = ["Agree", "StructSpec", "C10Spec"]
 THEOREM_REQUIRES = ["C10"]
-THEOREMS = ["C10_member_types", "C10_refuted_nonsquare"]
-PROOF_FILES = ["Spec/Layout.v", "Proofs/C10Proof.v", "Properties/C10.v"]
+THEOREMS = ["C10_holds", "C10_equal_layout_numbers", "C10_member_types", "C10_refuted_nonsquare"]
+PROOF_FILES = ["Spec/Layout.v", "Proofs/StructProof.v", "Proofs/C06Named.v", "Proofs/C10Proof.v", "Proofs/C10Comp.v", "Properties/C10.v"]
 RULE = ("host-shareable struct programs restricted to glam-representable members (f32/i32/u32 scalars, vec2-4, atomics, "
         "matrices, fixed arrays incl. arrays of vec3 / matrices / structs, nested structs, trailing runtime-sized arrays), "
         "generated with encase + glam; every module is compiled against the real encase 0.10 / glam 0.29 and a probe "
@@ -144,9 +144,9 @@ def verdict_expr(c, r, ir, real):
     ok, why = b_python(c, r)
     c["note"] = why
     o = coq_options(c["opts"])
-    return ('[wf %s; agree_res agree_C06 (gen %s ""%%string None %s) %s; '
+    return ('[wf %s && host_no_builtins %s; agree_res agree_C06 (gen %s ""%%string None %s) %s; '
             'on_out %s (fun o => C10_ok %s o) && layout_agrees %s && %s; kf_nonsquare_encase %s; negb (layout_agrees %s)]'
-            % (ir, ir, o, real, real, ir, ir, "true" if ok else "false", ir, ir))
+            % (ir, ir, ir, o, real, real, ir, ir, "true" if ok else "false", ir, ir))
 
 
 def verdict_expr_noout(c, r, ir):
